@@ -108,7 +108,9 @@ def execute(sc, ctx):
     variants = [False] + ([True] if sc["renames"] else [])
     key = []
     for dep in variants:
-        f = os.path.join(sb, "restart_%d" % dep)
+        # the file is saved over whatever an earlier `save` of the history left in that slot (possibly a longer text,
+        # e.g. one with the deprecated block): what is judged is the file on disk after the save
+        f = node.slot(int(dep))
         try:
             with simproc.quiet():
                 k.write_config(f, write_deprecated=dep, save_old=False)
